@@ -53,6 +53,9 @@ def iter_source(ex, v, st):
             return ('dictkeys', v)
     if isinstance(v, VSeq):
         return ('seq', v.t, v.etype)
+    if isinstance(v, VOpaque) and ('iter_' + v.cls) in ex.reg.specfuns:
+        sf = ex.reg.specfuns['iter_' + v.cls]
+        return ('seq', sf.apply(v.ident), sf.restype[1])
     raise Unsupported('iteration over %r' % (v,))
 
 
@@ -151,6 +154,12 @@ def src_len_item(ex, src, i, st):
     if src[0] in ('dictkeys', 'dictitems', 'dictvalues'):
         h = st.heap[src[1].ref]
         k = wrap(h.keys[i], h.ktype)
+        # a true fact the sequence solvers do not find by themselves: the i-th key is a key
+        st.assume(z3.Implies(z3.And(i >= 0, i < z3.Length(h.keys)), z3.Contains(h.keys, z3.Unit(h.keys[i]))))
+        ci = const_int(i)
+        if ci is not None:
+            for j in range(ci):      # dict keys are pairwise distinct
+                st.assume(z3.Implies(ci < z3.Length(h.keys), h.keys[j] != h.keys[ci]))
         from .engine import dict_get
         if src[0] == 'dictkeys':
             return z3.Length(h.keys), k
